@@ -33,6 +33,8 @@ ASSUMPTIONS = ["table dispositions were assigned by reading the constructs of th
                "errors made inside closures (Result combinators) are attributed to the call that receives the closure"]
 
 RESYNC_FINDING_KEY = "C17:resync:lexical-error-skips-rest-of-clause"
+# reader methods that move past reported bytes (read_char does NOT: it reports an error without consuming)
+SKIP_RX = re.compile(r"CharRead>?::(skip_bad_bytes|consume)$")
 
 
 def _arms_on(h, method_names):
@@ -99,10 +101,9 @@ def run(ctx, R):
         R.ob("C17:decoder-error-is-not-eof:%s" % name, ok,
              "Lexer::%s must have an arm for Some(Err(_)) of reader.%s() that does not answer with the end-of-file error: otherwise bytes that are not UTF-8 "
              "end the text silently (read_term/2 then succeeds with an unbound term, forever)" % (name, meth), F.where(lex[name]))
-        if name == "lookahead_char":
-            consumes = any(any(re.search(r"CharRead::(read_char|consume)$", r or "") for _, r, _ in hir_calls(a["body"])) for a in some_err)
-            R.ob("C17:decoder-error-is-consumed:lookahead_char", consumes,
-                 "the Some(Err(_)) arm of Lexer::lookahead_char must consume the reported bytes (reader.read_char()/consume): peek_char leaves them in the buffer", F.where(lex[name]))
+        consumes = any(any(SKIP_RX.search(r or "") for _, r, _ in hir_calls(a["body"])) for a in some_err)
+        R.ob("C17:decoder-error-is-consumed:%s" % name, consumes,
+             "the Some(Err(_)) arm of Lexer::%s must skip the reported bytes (reader.skip_bad_bytes()/consume): peek_char and read_char leave them in the buffer" % name, F.where(lex[name]))
     # next_token: no end-of-file error on a path where a character was successfully peeked
     h = F.hir(lex["next_token"])
     n_eof = 0
@@ -177,8 +178,8 @@ def _loops_and_consumes(F, fn):
 
 
 def consuming_reads(F, R, pid):
-    """CharRead::read_char consumes the invalid bytes it reports, and open_parsing_stream (used by the consuming
-    stream builtins only) goes through it."""
+    """The decoder (peek_char / read_char) reports invalid bytes without consuming them and leaves the skipping to its
+    caller (the reader's own unit test documents that contract): the consuming stream reads and the lexer must do it."""
     rc = [p for p, it in F.items.items() if p.endswith("char_reader::CharRead::read_char")]
     if len(rc) != 1:
         raise AnchorLost("CharRead::read_char default method: %s" % rc)
@@ -186,11 +187,14 @@ def consuming_reads(F, R, pid):
     arms = _arms_on(h, ("peek_char",))
     if arms is None:
         raise AnchorLost("CharRead::read_char no longer matches on peek_char()")
-    some_err = [a for a in arms if any(_pat_shape(q)[:2] == ("Some", "Err") for q in pat_leaves(a["pat"]))]
-    consumes = any(any(re.search(r"CharRead::consume$", r or "") for _, r, _ in hir_calls(a["body"])) for a in some_err)
-    R.ob("%s:read_char:skips-reported-bytes" % pid, consumes,
-         "CharRead::read_char must consume the bytes of an invalid sequence when it reports them (Some(Err(_)) arm calling consume): otherwise get_char/2 and "
-         "read_term/2 raise the same error for the same bytes on every call and the characters after them are never delivered", F.where(rc[0]))
+    # a skipping helper, if there is one, really consumes what the error names
+    sk = [p for p, it in F.items.items() if re.search(r"char_reader::CharRead::skip_bad_bytes$", p)]
+    for s in sk:
+        sh_ = F.hir(s)
+        names = [r or "" for _, r, _ in hir_calls(sh_["body"])]
+        R.ob("%s:skip_bad_bytes:consumes-reported-bytes" % pid,
+             any(re.search(r"CharRead::consume$", c) for c in names) and any(x["k"] == "Field" and x["name"] == "bytes" for x in walk(sh_["body"])),
+             "CharRead::skip_bad_bytes must consume exactly the bytes the BadUtf8Error names (consume(bad.bytes.len()))", F.where(s))
     ok_arm = [a for a in arms if any(_pat_shape(q)[:2] == ("Some", "Ok") for q in pat_leaves(a["pat"]))]
     R.ob("%s:read_char:consumes-decoded-char" % pid, any(any(re.search(r"CharRead::consume$", r or "") for _, r, _ in hir_calls(a["body"])) for a in ok_arm),
          "CharRead::read_char consumes the character it returns", F.where(rc[0]))
@@ -203,8 +207,9 @@ def consuming_reads(F, R, pid):
         raise AnchorLost("open_parsing_stream no longer matches on peek_char()")
     some_err = [a for a in arms if any(_pat_shape(q)[:2] == ("Some", "Err") for q in pat_leaves(a["pat"]))]
     R.ob("%s:open_parsing_stream:skips-reported-bytes" % pid,
-         any(any(re.search(r"CharRead>?::read_char$|CharRead>?::consume$", r or "") for _, r, _ in hir_calls(a["body"])) for a in some_err),
-         "open_parsing_stream (the entry of get_char/2, get_code/2, get_n_chars/3) must read past the invalid bytes it reports", F.where(ops[0]))
+         any(any(SKIP_RX.search(r or "") for _, r, _ in hir_calls(a["body"])) for a in some_err),
+         "open_parsing_stream (the entry of get_char/2, get_code/2, get_n_chars/3) must skip the invalid bytes it reports (skip_bad_bytes/consume): otherwise "
+         "the same error is raised for the same bytes on every call and the characters after them are never delivered", F.where(ops[0]))
     # only consuming builtins may call it (a peek must not skip input)
     callers = sorted({short(p) for p, cs in F.calls.items() for c in cs if (c.get("resolved") or c.get("callee")) == ops[0]})
     bad = [c for c in callers if re.search(r"peek", c)]
